@@ -46,7 +46,12 @@ struct dur_s {
 	int ok;
 };
 #define NDUR	(NINCR * 2 * 3)
-static struct dur_s durs[NDUR];
+/* the carry family: for every N in -10..+10 the counts N days +- {0, 1 s, 1 h, 12 h, 86399 s}, spelt in s and,
+ * where exact, in m and h: every value -9..+9 of the day carry (a 4-bit signed slot in the time) is produced
+ * from early, noon and late times of day */
+#define MAXCDUR	700
+static struct dur_s durs[NDUR + MAXCDUR];
+static int ncdur;
 
 static void
 mk_durs(void)
@@ -68,6 +73,43 @@ mk_durs(void)
 					d->dur = st.durs[0];
 				}
 				__strpdtdur_free(&st);
+			}
+		}
+	}
+	/* carry family */
+	{
+		static const int offs[] = {0, 1, -1, 3600, -3600, 43200, -43200, 86399, -86399};
+		int64_t seen[21 * 9];
+		int nseen = 0;
+		for (int n = -10; n <= 10; n++) {
+			for (int o = 0; o < 9; o++) {
+				int64_t secs = (int64_t)n * 86400 + offs[o];
+				int dup = secs == 0;
+				for (int i = 0; i < nseen; i++) {
+					dup |= seen[i] == secs;
+				}
+				if (dup) {
+					continue;
+				}
+				seen[nseen++] = secs;
+				for (int u = 0; u < 3; u++) {
+					struct dur_s *d = durs + NDUR + ncdur;
+					struct __strpdtdur_st_s st = {0};
+					if (secs % unit_secs[u] || ncdur >= MAXCDUR) {
+						continue;
+					}
+					d->unit = u;
+					d->neg = secs < 0;
+					d->n = secs / unit_secs[u];
+					d->secs = secs;
+					snprintf(d->text, sizeof(d->text), "%c%lld%c", d->neg ? '-' : '+', llabs(d->n), unit_ch[u]);
+					d->ok = dt_io_strpdtdur(&st, d->text) >= 0 && st.ndurs == 1;
+					if (d->ok) {
+						d->dur = st.durs[0];
+					}
+					__strpdtdur_free(&st);
+					ncdur++;
+				}
 			}
 		}
 	}
@@ -136,7 +178,7 @@ judge_add(int h, int rd, int sod, int di, int replay)
 
 	++*c_eval;
 	if (!held_value(h, rd, sod, &v, text, sizeof(text))) {
-		*c_skipv += (uint64_t)(di < 0 ? NDUR : 1);
+		*c_skipv += (uint64_t)(di == -1 ? NDUR : di == -2 ? ncdur : 1);
 		if (replay) {
 			printf("  '%s' (%s) is not accepted\n", text, held_name[h]);
 		}
@@ -145,13 +187,14 @@ judge_add(int h, int rd, int sod, int di, int replay)
 	prn(got, sizeof(got), h, v);
 	++*c_eval;
 	if (!dec_datetime(held_olayout[h], got, &gi, &s60) || gi != inst) {
-		*c_skipv += (uint64_t)(di < 0 ? NDUR : 1);
+		*c_skipv += (uint64_t)(di == -1 ? NDUR : di == -2 ? ncdur : 1);
 		if (replay) {
 			printf("  '%s' (%s) prints as '%s', not as itself\n", text, held_name[h], got);
 		}
 		return 0;
 	}
-	for (int k = (di < 0 ? 0 : di); k < (di < 0 ? NDUR : di + 1); k++) {
+	/* DI: -1 the base durations, -2 the carry family, else one duration */
+	for (int k = (di == -1 ? 0 : di == -2 ? NDUR : di); k < (di == -1 ? NDUR : di == -2 ? NDUR + ncdur : di + 1); k++) {
 		const struct dur_s *d = durs + k;
 		int64_t want = inst + d->secs;
 		struct dt_dt_s r;
@@ -197,6 +240,17 @@ judge_add(int h, int rd, int sod, int di, int replay)
 				continue;
 			}
 #endif
+			if (k >= NDUR && wkend) {
+				/* the weekend defect of bizda-held values is recorded under the `add rep=bizda' classes */
+				EX_CTR(c_skipcw, "skipped:carry family, bizda-held value whose result falls on a weekend (recorded under the add classes)");
+				++*c_skipcw;
+				continue;
+			}
+			if (k >= NDUR) {
+				/* carry family: keyed by the size class of the day carry */
+				snprintf(key, sizeof(key), "add-carry rep=%s unit=%c sign=%c span=%s%s: %s", held_name[h], unit_ch[d->unit], d->neg ? '-' : '+',
+					 a < 7 * 86400 ? "under-7-days" : a < 8 * 86400 ? "7-to-8-days" : "8-days-or-more", wkend ? " result-on-weekend" : "", why);
+			} else
 			snprintf(key, sizeof(key), "add rep=%s unit=%c sign=%c span=%s%s: %s", held_name[h], unit_ch[d->unit], d->neg ? '-' : '+',
 				 a < 86400 ? "under-a-day" : a == 86400 ? "one-day" : "over-a-day", wkend ? " result-on-weekend" : "", why);
 			snprintf(cas, sizeof(cas), "ADD %d %d %d %d", h, rd, sod, k);
@@ -587,7 +641,7 @@ main(int argc, char *argv[])
 	if (ex.cas) {
 		int a[6] = {0}, b7[1] = {0};
 		if (!strncmp(ex.cas, "ADD ", 4) && sscanf(ex.cas + 4, "%d %d %d %d", a, a + 1, a + 2, a + 3) == 4 &&
-		    a[0] >= 0 && a[0] < NHELD && rc_get(a[1]) && a[2] >= 0 && a[2] <= 86400 && a[3] >= 0 && a[3] < NDUR) {
+		    a[0] >= 0 && a[0] < NHELD && rc_get(a[1]) && a[2] >= 0 && a[2] <= 86400 && a[3] >= 0 && a[3] < NDUR + ncdur) {
 			return ex_replay_result(judge_add(a[0], a[1], a[2], a[3], 1), "addition rep=%s", held_name[a[0]]);
 		}
 		if (!strncmp(ex.cas, "MIL ", 4) && sscanf(ex.cas + 4, "%d %d", a, a + 1) == 2 && a[0] >= 0 && a[0] < NHELD && rc_get(a[1])) {
@@ -658,10 +712,11 @@ main(int argc, char *argv[])
 	ex_meta("bound", "ADD: %d boundary days x 86,400 seconds x %d durations (+-{1,59,60,61,3599,3600,3601,86399,86400,86401,172800,604800,31536000,2^31-1} "
 		"x {s,m,h}) x 7 held representations (ymd ywd yd ymcw daisy epoch bizda[business days]); SEAM: 911,280 days x {00:00:00,23:59:59} x {+-1s,+-86400s} x 7; "
 		"MIL: 911,280 days x {ymd,ywd,ymcw} x 4 checks; EPOCH: 911,280 days x {23:59:59 before, 00:00:00, 00:00:01} and %d days x 86,400 s, "
-		"2 inputs + 7 outputs each; ZEP: the SEQ zones x boundary days x 48 instants (every hour's first and last second), binaries on 3 instants of 6 days; SEQ: %d boundary days x %d times of day (00:00:00 00:00:01 00:59:59 01:00:00 12:00:00 22:00:00 23:00:00 23:59:59%s) "
+		"2 inputs + 7 outputs each; CARRY: the same boundary days x the SEQ times of day x 7 representations x %d durations (N days +- {0,1s,1h,12h,86399s} "
+		"for N = -10..+10 in s, m, h where exact: every day-carry value -9..+9); ZEP: the SEQ zones x boundary days x 48 instants (every hour's first and last second), binaries on 3 instants of 6 days; SEQ: %d boundary days x %d times of day (00:00:00 00:00:01 00:59:59 01:00:00 12:00:00 22:00:00 23:00:00 23:59:59%s) "
 		"x 6 representations x all %d ordered pairs of the %d-duration alphabet (+1s -1s +2h -2h +90m -90m +24h -24h +48h -48h +1440m +86400s -86400s +0s +3600s +25h -25h)%s; "
 		"--from-zone at library level: %d zones x 8 local times x all pairs; dadd binary: the same zones and times x the 33 pairs containing +24h x {--from-zone, --zone}; DIFF: (40 seam days x 7 times)^2 ordered pairs x 6 representations, and 911,280 days x 4 neighbour pairs x 3",
-		nbday, NDUR, nbday, nbday, nseq_tods, ex.thorough ? " and every full minute" : "", nseq2, NSEQA,
+		nbday, NDUR, nbday, ncdur, nbday, nseq_tods, ex.thorough ? " and every full minute" : "", nseq2, NSEQA,
 		ex.thorough ? ", and all 4,913 ordered triples on the first 6 boundary days" : "", ex.thorough ? NSEQZ : NSEQZ_QUICK);
 	ex_meta("binding", "dadd / dconv -f %%s / ddiff -f %%S binaries of the same build, one process per run on the 86,400 seconds of a boundary day "
 		"from stdin (%d runs), byte-compared with the library-level observation", ex.thorough ? NBIND : NBIND_QUICK);
@@ -681,6 +736,24 @@ main(int argc, char *argv[])
 				++*c_traces;
 				ex_sample("ADD %04d-%02d-%02d hour %02d (3600 seconds) %s-held x %d durations", bdays[bd][0], bdays[bd][1], bdays[bd][2],
 					  hr, held_name[add_reps[r]], NDUR);
+			}
+		}
+	}
+	/* CARRY: slice = (boundary day, representation, block of times) */
+	for (int bd = 0; bd < nbday; bd++) {
+		int rd = bday_rd(bd);
+		for (int r = 0; r < NADDREP; r++) {
+			for (int t0 = 0; t0 < nseq_tods; t0 += 64, slice++) {
+				if (!ex_mine(slice) || ex_expired()) {
+					continue;
+				}
+				for (int t = t0; t < t0 + 64 && t < nseq_tods; t++) {
+					++*c_states;
+					judge_add(add_reps[r], rd, seq_tods[t], -2, 0);
+				}
+				++*c_traces;
+				ex_sample("CARRY %04d-%02d-%02d %s-held: %d times of day x %d durations around whole days -10..+10", bdays[bd][0], bdays[bd][1],
+					  bdays[bd][2], held_name[add_reps[r]], nseq_tods - t0 < 64 ? nseq_tods - t0 : 64, ncdur);
 			}
 		}
 	}
